@@ -155,6 +155,9 @@ var operators = []map[string]tokType{
 		"~>": tokBacon,
 		",":  tokComma,
 	},
+
+	// TODO: Composer constraints are not supported yet; only versions are.
+	Composer: {},
 }
 
 func (sys System) typeOf(r rune) uint8 {
